@@ -18,6 +18,7 @@
                        leaf, missing key, extra key, list length change, reorder of
                        distinct elements
      dfree t           t has no directive-named key anywhere
+     regular t         t uses the directives as documented (see C19_tmatch_iff_regular)
      outcome_holds e a same class, message contained case-insensitively ('' matches
                        anything), non-zero delay equal; None = "ok" = a plain value *)
 From Koreo Require Import Json Outcome FnTestMatch FnTestMatch_proofs.
@@ -54,16 +55,19 @@ Section C19.
     dfree t = true -> (tmatch t a = MDone true <-> equiv_strict false t a).
   Proof. exact (tmatch_iff_dfree key_text). Qed.
 
-  (* tmatch_iff_partial — NOT proved in full for expectations WITH directives under
-     the strict reading:
-       forall t a, regular t -> no_bool_in_lists a ->
-                   (tmatch t a = MDone true <-> equiv_strict false t a)
-     (regular: well-shaped directives; map-directed values are non-empty lists of
-     objects with distinct, non-directive key texts; set-directed lists hold no
-     booleans).  Proved instead: the unconditional exact characterisation
-     C19_tmatch_exact, the direction C19_tmatch_complete, and the three witnesses
-     below showing that WITHOUT those side conditions the strict statement is
-     false (findings F1, F2, F2b). *)
+  (* tmatch_iff, strict reading, for EVERY expectation that uses the directives as
+     documented ([regular]: well-shaped directive values; a map-directed key holds a
+     non-empty list of objects keyed by >= 1 field, no key text being a directive
+     name; set-directed lists hold no booleans) and every actual value none of whose
+     lists directly holds a boolean: pass iff the actual value is exactly what the
+     expectation describes.  The side conditions exclude exactly the three
+     departures witnessed below (findings F1, F2b, F2). *)
+  Theorem C19_tmatch_iff_regular : forall t a,
+    regular key_text t = true -> nobool_lists a = true ->
+    (tmatch t a = MDone true <-> equiv_strict false t a).
+  Proof. exact (tmatch_iff_regular key_text). Qed.
+
+  (* without them the strict statement is false: *)
   Theorem C19_tmatch_sound_strict_refuted_set_bool :
     exists t a, tmatch t a = MDone true /\ ~ equiv_strict false t a.
   Proof. exact (tmatch_sound_strict_refuted_set_bool key_text). Qed.
@@ -189,10 +193,29 @@ Proof.
   apply D_here, DR_kind. discriminate.
 Qed.
 
+(* non-vacuity of C19_tmatch_iff_regular: an expectation with both directives that
+   is [regular], the shuffled value it describes, and a value with one member changed *)
+Example C19_nonvacuous_directives :
+  let t := JMap [("tags"%string, JList [JStr "b"; JStr "a"; JInt 3]);
+                 (K_SET, JList [JStr "tags"]);
+                 ("ports"%string, JList [JMap [("name"%string, JStr "https"); ("port"%string, JInt 443)];
+                                         JMap [("name"%string, JStr "http"); ("port"%string, JInt 80)]]);
+                 (K_MAP, JMap [("ports"%string, JList [JStr "name"])])] in
+  let a := JMap [("ports"%string, JList [JMap [("name"%string, JStr "http"); ("port"%string, JInt 80)];
+                                         JMap [("name"%string, JStr "https"); ("port"%string, JInt 443)]]);
+                 ("tags"%string, JList [JInt 3; JStr "a"; JStr "b"])] in
+  let a' := JMap [("ports"%string, JList [JMap [("name"%string, JStr "http"); ("port"%string, JInt 81)];
+                                          JMap [("name"%string, JStr "https"); ("port"%string, JInt 443)]]);
+                  ("tags"%string, JList [JInt 3; JStr "a"; JStr "b"])] in
+  regular py_key_text t = true /\ nobool_lists a = true /\ nobool_lists a' = true /\
+  tmatch py_key_text t a = MDone true /\ tmatch py_key_text t a' = MDone false.
+Proof. cbv zeta. repeat split; vm_compute; reflexivity. Qed.
+
 Print Assumptions C19_fuel.
 Print Assumptions C19_tmatch_exact.
 Print Assumptions C19_tmatch_complete.
 Print Assumptions C19_tmatch_iff.
+Print Assumptions C19_tmatch_iff_regular.
 Print Assumptions C19_tmatch_sound_strict_refuted_set_bool.
 Print Assumptions C19_tmatch_sound_strict_refuted_map_empty.
 Print Assumptions C19_tmatch_total_refuted.
